@@ -46,6 +46,8 @@ class NumpySerializedList(collections.UserList):
         return len(self._addr)
 
     def __getitem__(self, idx):
+        if -len(self) <= idx < 0:
+            idx += len(self)
         start_addr = 0 if idx == 0 else self._addr[idx - 1].item()
         end_addr = self._addr[idx].item()
         bytes = memoryview(self._lst[start_addr:end_addr])
